@@ -108,6 +108,13 @@ def watchdog(seconds):
     signal.alarm(seconds)
 
 
+def items_by_result(r, timeout_ms, thorough):
+    """the work item a result record came from"""
+    al = r.get("alias")
+    return (r["key"], r["ctx"], tuple(al) if isinstance(al, (list, tuple)) else (tuple(sorted(al.items())) if isinstance(al, dict) else al),
+            timeout_ms, thorough)
+
+
 def main():
     ap = argparse.ArgumentParser()
     ap.add_argument("--property")
@@ -197,6 +204,28 @@ def check_property(prop, tier, seed, jobs, verbose):
             for var in lm.contract_kw.get("variants", []):
                 items.append((name, None, tuple(sorted(var.items())), timeout_ms, thorough))
     results = runner.run_items(items, jobs, item_timeout=780 if tier == "quick" else 5 * 3600) if items else []
+
+    # ---- confirmation pass: an obligation the solvers gave up on (no model) has to fail TWICE -----------------
+    # The first pass runs 16 functions side by side; a solver that ran out of memory or time there (other checks on
+    # the machine, a worker of an earlier run still alive) answers `unknown`, which must not become a VIOLATION.
+    # Functions with such obligations are verified again, few at a time; a function is reported only if it fails again.
+    second_pass = []
+    gave_up = [i for i, r in enumerate(results)
+               if not r["error"] and not r["unsupported"] and any(o["status"] != "proved" for o in r["obligations"])]
+    if gave_up and (tier != "quick" or time.time() - t_start < 400) and len(gave_up) <= 8:
+        again = runner.run_items([items_by_result(results[i], timeout_ms, thorough) for i in gave_up], min(4, len(gave_up)),
+                                 item_timeout=(780 - int(time.time() - t_start) - 60) if tier == "quick" else 5 * 3600)
+        for i, r2 in zip(gave_up, again):
+            r1 = results[i]
+            n1 = sum(o["status"] != "proved" for o in r1["obligations"])
+            ok2 = not r2["error"] and not r2["unsupported"] and r2["obligations"] and \
+                all(o["status"] == "proved" for o in r2["obligations"])
+            second_pass.append({"function": r1["key"] + (f" [receiver {r1['ctx']}]" if r1["ctx"] else ""),
+                                "unproved_in_first_pass": n1, "second_pass": "all proved" if ok2 else "failed again"})
+            if ok2:
+                results[i] = r2
+                print(f"NOTE: {r1['key']}: {n1} obligation(s) the solvers gave up on in the parallel pass were all discharged "
+                      "in the confirmation pass (load-dependent solver answer; counted as proved, recorded in the evidence)")
 
     # ---- triage --------------------------------------------------------------------------------
     known = load_known()
@@ -443,6 +472,7 @@ def check_property(prop, tier, seed, jobs, verbose):
         "callee_contracts_used": sorted(callees),
         "by_backend": by_backend, "solver_s": round(solver_s, 2),
         "cross_check_of_discharged_obligations": cross or "thorough tier only",
+        "confirmation_pass": second_pass,
         "slowest_obligations": [{"solver_s": t, "obligation": n, "backend": b, "status": st_}
                                 for t, n, b, st_ in sorted(slow, reverse=True)[:8]],
         "bounded_stand_ins": bounded_recs,
